@@ -162,6 +162,7 @@ func extractPipeline() (string, error) {
 		"bindDataBasedOnContentType": "body", "ValidateMessage": "validate", "next.ServeHTTP": "handler"}
 	var order []string
 	var bodyVerbs []string
+	var bodyGuardCalls []string
 	ast.Inspect(bm.Body, func(n ast.Node) bool {
 		switch x := n.(type) {
 		case *ast.CallExpr:
@@ -178,6 +179,13 @@ func extractPipeline() (string, error) {
 				return true
 			})
 			if hasBody && len(bodyVerbs) == 0 {
+				// anything the guard CALLS: the verb tests call nothing
+				ast.Inspect(x.Cond, func(m ast.Node) bool {
+					if c, ok := m.(*ast.CallExpr); ok {
+						bodyGuardCalls = append(bodyGuardCalls, srcOf(c))
+					}
+					return true
+				})
 				ast.Inspect(x.Cond, func(m ast.Node) bool {
 					if be, ok := m.(*ast.BinaryExpr); ok && be.Op == token.EQL {
 						if exprString(be.X) == "httpMethod" {
@@ -194,6 +202,7 @@ func extractPipeline() (string, error) {
 	})
 	fmt.Fprintf(&b, "/-- order of the binding steps inside the emitted BindingMiddleware. -/\ndef order : List String := %s\n", leanStrList(order))
 	fmt.Fprintf(&b, "/-- verbs for which the emitted middleware binds a body. -/\ndef bodyVerbs : List String := %s\n", leanStrList(bodyVerbs))
+	fmt.Fprintf(&b, "/-- calls made by the condition that guards the body step (the verb tests make none). -/\ndef bodyGuardCalls : List String := %s\n", leanStrList(bodyGuardCalls))
 
 	// 2. content-type dispatch tables
 	for _, fn := range []string{"bindDataBasedOnContentType", "marshalResponse", "writeProtoMessageResponse", "writeResponseBody"} {
